@@ -69,6 +69,9 @@ SETPTR = ABS + '::setPtr'
 MUT_EMPTY = {'clear'}
 MUT_KNOWN = {'operator=', 'assign', 'resize', 'reserve', 'shrink_to_fit', 'push_back', 'emplace_back', 'insert',
              'emplace', 'erase', 'pop_back', 'swap', 'reset', 'clear'}
+THROWING_REFILL = {'insert', 'push_back', 'emplace_back', 'emplace', 'resize', 'assign', 'reserve'}
+INT_BITS = {'unsigned long': 64, 'long': 64, 'unsigned long long': 64, 'long long': 64, 'unsigned int': 32, 'int': 32, 'unsigned short': 16,
+            'short': 16, 'unsigned char': 8, 'signed char': 8, 'char': 8}
 INT_TYPES = {'unsigned long', 'unsigned int', 'unsigned long long', 'long', 'int', 'long long', 'unsigned short', 'short'}
 BYTE_PTR = {'const unsigned char *', 'unsigned char *', 'const char *', 'char *', 'const std::byte *', 'std::byte *',
             'const signed char *', 'signed char *'}
@@ -675,6 +678,16 @@ class WrapperAnalysis:
                     elif whole and how == 'arg:swap':
                         lc = last_call.get(id(ev.node))
                         swapped = lc.place if lc is not None else None
+                    if whole and st.get(X) == 'E' and not f.get('ctor') and okind.get(M) == 'vec' and how in THROWING_REFILL \
+                            and id(ev.node) not in thrown_seen:
+                        thrown_seen.add(id(ev.node))
+                        dby = dirty_by.get(X)
+                        findings.append(Finding('R-C11-2', 'emptied-before-throwing-refill',
+                                                'the owner `%s` was emptied (`%s`) - its elements are destroyed - and the view has not been re-pointed when '
+                                                '`%s` refills it: copying an element (or allocating) can throw, and then the function is left with '
+                                                '`%s` empty while size() still reports the old count and data() / at(i) hand out destroyed elements. '
+                                                'Build the new contents first (a temporary that is then moved in), or re-point the view right after emptying'
+                                                % (M, self.tu.show(dby.node) if dby is not None and dby.node else '?', self.tu.show(ev.node), M), ev.node))
                     moved_out = False
                     if whole and how.startswith('arg:') and okind.get(M) in ('sp_alloc', 'up_alloc', 'sp_wrapper', 'sp_other') and ev.node is not None:
                         sd_ = tu.sd(ev.node)
@@ -1550,6 +1563,11 @@ def check_abstract(ctx, tu, tag=''):
                 want = ('deref', mk_comm('add', [ptr, off]))
                 probs = []
                 und = []
+                if re.search(r'\bnoexcept\b(?!\s*\(\s*false)', f['fty']) and any(p.term[0] == 'throw' for p in paths):
+                    probs.append(('throw-in-noexcept',
+                                  'at() is declared noexcept (`%s`) but its out-of-range path throws %s: the exception cannot leave the function - '
+                                  'std::terminate is called instead, so a caller cannot catch the documented bounds failure (at(i) must throw for '
+                                  'i >= size())' % (f['fty'], next(p.term[1] for p in paths if p.term[0] == 'throw'))))
                 for p in paths:
                     g = p.cond_of(guard)
                     if p.term[0] == 'return':
@@ -1874,6 +1892,16 @@ def check_dataview(ctx, tu, tag=''):
                             ctx.ok(R5, inst, 'stores the data pointer; stride is the dense default', loc)
                         else:
                             ctx.undecided(R5, inst, '`%s` is set to `%s`, not recognised as the dense default sizeof(T)' % (sf[0]['name'], show(sv)), loc)
+                    continue
+                # the stride is kept as given: a member narrower than the parameter it is stored from drops the high bits of a large pitch
+                pw = INT_BITS.get(norm_type(f['params'][1]['ct']).replace('const ', '').strip())
+                mw = INT_BITS.get(sf[0]['ct'])
+                if pw is not None and mw is not None and mw < pw:
+                    ctx.violation(R5, inst, '%s takes the stride as `%s` (%d bits) but the view keeps it in the member `%s` of type `%s` (%d bits): a pitch of 2^%d '
+                                  'bytes or more between consecutive elements is truncated when it is stored (2^32 + 24 becomes 24, a value in [2^31, 2^32) '
+                                  'becomes negative), so operator[](i) no longer reads the element at byte offset i*stride'
+                                  % (name if not f.get('ctor') else 'the constructor', f['params'][1]['ct'], pw, sf[0]['name'], sf[0]['ct'], mw, mw if sf[0]['ct'].startswith('unsigned') else mw - 1), loc,
+                                  key='%s|%s|%s|stride-narrowed' % (R5, file, pname))
                     continue
                 for p in paths:
                     vals = {}
